@@ -29,6 +29,12 @@ static void scenario() {
         vf_window(1); ar.enqueue([&] { signal_ev(0); }); wait_ev(0); vf_window(0); }
     else if (streq(k, "enqueue_limit1")) { tbb::global_control gc(tbb::global_control::max_allowed_parallelism, 1); tbb::task_arena ar(2); ar.initialize();   // soft limit 0: mandatory concurrency
         vf_window(1); ar.enqueue([&] { signal_ev(0); }); wait_ev(0); ar.enqueue([&] { signal_ev(1); }); wait_ev(1); vf_window(0); }
+    else if (streq(k, "enqueue_prio_limit1")) { tbb::global_control gc(tbb::global_control::max_allowed_parallelism, 1);   // soft limit 0, two priority levels
+        tbb::task_arena high(4, 1, tbb::task_arena::priority::high), low(4, 1, tbb::task_arena::priority::low); high.initialize(); low.initialize();
+        vf_window(1); int first = 0;
+        high.execute([&] { tbb::task_group tg; auto body = [&] { if (first++) return;   /* the second task stays in the pool of the main thread: 'high' keeps ordinary (spawned) demand */
+                low.enqueue([&] { signal_ev(0); }); wait_ev(0); }; tg.run(body); tg.run(body); tg.wait(); });
+        vf_window(0); }
     else if (streq(k, "enqueue_gc")) { tbb::task_arena ar(2); ar.initialize();   // the limit is lowered to 1 while the enqueue is in flight
         int t = spawn([&] { vf_gate_wait(); tbb::global_control gc(tbb::global_control::max_allowed_parallelism, 1); vf_point(); }); while (vf_gate_count() < 1) vf_yield();
         { tbb::global_control gc(tbb::global_control::max_allowed_parallelism, 2); vf_window(1); vf_gate_open(); ar.enqueue([&] { signal_ev(0); }); wait_ev(0); vf_join(t); vf_window(0); } }
